@@ -31,6 +31,12 @@ CHECKS = {
  "C13": ("seeded well-conditioned systems of every entry type and pivot-forcing sparsity pattern; residual A x - b (normal equations for lsq) evaluated in reference-AD arithmetic for value and every first / second derivative; row-permutation invariance",
          "Runtime oracle over 10^4..10^5 generated systems (n<=8, tall to 12x6); a residual check cannot be fooled by a bug in the solver's own multiplication because the residual is formed by the reference arithmetic.",
          "DESIGN.md 3/C13", TRUST),
+ "C14": ("every basis index x derivative order x knot / end-point / neighbouring-float evaluation points on seeded knot vectors against an independent piecewise-polynomial oracle (Cox-de Boor on coefficient vectors + Horner) with magnitude-derived tolerance",
+         "Runtime oracle over 10^3..10^4 knot vectors (2.6*10^6 .. 10^8 evaluations) for orders 1..6 incl. repeated interior knots; checks value, all derivatives, non-negativity, support, partition of unity.",
+         "DESIGN.md 3/C14", TRUST),
+ "C15": ("metamorphic and oracle checks on solved splines: data / end-condition reproduction (also through the independent basis oracle on the returned coefficients), polynomial reproduction, linearity in the data against unit-vector splines, chain rule for Dual / Dual2 abscissae, error paths, 3x3 type table",
+         "Runtime oracle over 10^3..10^5 generated (order, knots, site layout, data) combinations, collocation matrices pre-screened for conditioning.",
+         "DESIGN.md 3/C15", TRUST),
  "C17": ("complete enumeration of stored-list x requested-list pairs with a name-keyed lookup oracle; manifold product rule against reference AD",
          "Exhaustive over (stored list, requested list) on a small pool for gradient1/gradient2/gradient1_manifold (exact comparison), sampled for the product-rule identity.",
          "DESIGN.md 3/C17", TRUST),
